@@ -181,6 +181,12 @@ func checkCase(c Case, e *env.Env) (*hx.Violation, info) {
 		}
 		return nil, inf
 	}
+	if rw.code == 425 && now == availMS && !tl.ExactInstant(tl.AvailU(c.N)) && strings.Contains(string(rw.buf), "too early by 0ms") {
+		// the very millisecond of an availability instant that is not a whole second: float64 seconds in the server may be
+		// 1 ms late (same tolerance as in C04; the MPD side of it is known finding KF-C02-float-boundary)
+		inf.tooEarly = true
+		return nil, inf
+	}
 	if rw.code != 200 {
 		return hx.V("status", "%s (offset %d ms after the advertised availability time) -> %d %.200q", url, c.OffsetMS, rw.code, rw.buf), inf
 	}
